@@ -508,6 +508,8 @@ func init() {
 					pj("C18/sched", "os W=2 db3 path kept across buffer reuse", "instr-w2", "os", "pathkeep", 3, 600, true),
 					pj("C18/sched", "rs W=2 db3 six/twelve reads, over-long reads", "instr-w2", "rs", "reads6+reads12+longlen", 3, 600, true),
 					pj("C18/sched", "os W=2 db3 six reads, over-long reads, two listings", "instr-w2", "os", "reads6+longlen+twodirs", 3, 600, true),
+					{Part: "C18/pair", Build: "instr-w2", Args: map[string]string{"server": "rs", "bound": "3"}, Shards: 16, BudgetS: 600, Label: "rs W=2 db3 two servers from one option list"},
+					{Part: "C18/pair", Build: "instr-w2", Args: map[string]string{"server": "os", "bound": "2"}, Shards: 16, BudgetS: 600, Label: "os W=2 db2 two servers from one option list"},
 					pj("C18/sched", "rs W=2 db3 attribute blocks decoded late", "instr-w2", "rs", "attrpipe", 3, 600, true),
 					pj("C18/sched", "os W=2 db3 attribute blocks decoded late", "instr-w2", "os", "attrpipe", 3, 600, true),
 				}
@@ -522,6 +524,8 @@ func init() {
 					pj("C18/sched", "os W=2 db2 path kept across buffer reuse", "instr-w2", "os", "pathkeep", 2, 100, true),
 					pj("C18/sched", "rs W=2 db2 six reads (more pages outstanding than the pool keeps), over-long reads", "instr-w2", "rs", "reads6+longlen", 2, 100, true),
 					pj("C18/sched", "os W=2 db2 six reads, over-long reads, two listings", "instr-w2", "os", "reads6+longlen+twodirs", 2, 100, true),
+					{Part: "C18/pair", Build: "instr-w2", Args: map[string]string{"server": "rs", "bound": "2"}, Shards: 16, BudgetS: 100, Label: "rs W=2 db2 two servers from one option list"},
+					{Part: "C18/pair", Build: "instr-w2", Args: map[string]string{"server": "os", "bound": "1"}, Shards: 16, BudgetS: 100, Label: "os W=2 db1 two servers from one option list"},
 					pj("C18/sched", "rs W=2 db2 attribute blocks decoded late", "instr-w2", "rs", "attrpipe", 2, 100, true),
 					pj("C18/sched", "os W=2 db2 attribute blocks decoded late", "instr-w2", "os", "attrpipe", 2, 100, true),
 				}
